@@ -106,6 +106,17 @@ impl StreamContext {
     }
 }
 
+#[cfg(feature = "verif")]
+impl StreamContext {
+    /// Derive the execution graph of the job built so far (every stream must have a sink),
+    /// without executing it (verification hook).
+    pub fn verif_execution_graph(self) -> crate::verif::GraphDump {
+        let mut env = self.inner.lock();
+        let scheduler = env.scheduler.take().unwrap();
+        scheduler.verif_dump()
+    }
+}
+
 impl StreamContextInner {
     fn new(config: RuntimeConfig) -> Self {
         Self {
